@@ -13,6 +13,7 @@ import (
 	"go/ast"
 	"go/constant"
 	"go/token"
+	"go/types"
 	"math/big"
 	"sort"
 	"strings"
@@ -24,8 +25,9 @@ func checkC15(p *Prog, r *Report) {
 	c15Units(p, r)
 	c15Table(p, r)
 	c15PTF(p, r)
+	c15PTFArgs(p, r)
 	c15Saturation(p, r, "C15.R3")
-	c15History(p, r)
+	c15History(p, r, "C15.R4")
 }
 
 // ---------------------------------------------------------------- units
@@ -561,8 +563,8 @@ func c15Saturation(p *Prog, r *Report, rule string) {
 
 // ---------------------------------------------------------------- history independence
 
-func c15History(p *Prog, r *Report) {
-	r.Rule("C15.R4", "history independence of the moving groundwater table: backups are written only by the input routine, from the final unsaturated parameters; when the level changes every layer 0..N−1 of all four parameter arrays is rewritten from the backups (or recomputed from the texture table exactly as the input routine does) before the saturation routine, which is the only other writer of field capacity on the run path", 8)
+func c15History(p *Prog, r *Report, rule string) {
+	r.Rule(rule, "history independence of the moving groundwater table: backups are written only by the input routine, from the final unsaturated parameters; when the level changes every layer 0..N−1 of all four parameter arrays is rewritten from the backups (or recomputed from the texture table exactly as the input routine does) before the saturation routine, which is the only other writer of field capacity on the run path", 8)
 	fx := p.Fields()
 	for _, f := range []string{"W_Backup", "WMIN_Backup", "PORGES_Backup", "WNOR_Backup"} {
 		for _, w := range fx.Writers(FieldRef{"GlobalVarsMain", f}) {
@@ -669,8 +671,34 @@ func c15History(p *Prog, r *Report) {
 			continue
 		}
 		same := sameShape(stripVersions(re.Val), stripVersions(ie.Val))
-		r.Ob("recompute:"+shortRoot(pr[0]), p.Pos(re.Pos), same, fmt.Sprintf("daily recompute %s = %s; input routine %s — same formula: %v", re.Target(), stripVersions(re.Val), stripVersions(ie.Val), same))
+		// the layer-range guard (which 10 cm layers of the horizon get the parameters) must be the input routine's
+		rg, ig := layerGuards(run, re), layerGuards(in, ie)
+		sameG := rg == ig && rg != ""
+		r.Ob("recompute:"+shortRoot(pr[0]), p.Pos(re.Pos), same && sameG, fmt.Sprintf("daily recompute %s = %s; input routine %s — same formula: %v; layer-range guard {%s} vs input routine {%s}: %v (a layer left out keeps the saturation of the previous level)", re.Target(), stripVersions(re.Val), stripVersions(ie.Val), same, rg, ig, sameG))
 	}
+}
+
+// layerGuards renders, as written in the source, the comparison guards of e that bound the layer number by
+// the number of layers (they mention the field N).
+func layerGuards(x *Exec, e *Event) string {
+	var out []string
+	for _, g := range flattenGuards(e.Guards) {
+		if g.Loop || g.Kind != "cmp" || g.Expr == nil {
+			continue
+		}
+		mentionsN := false
+		ast.Inspect(g.Expr, func(n ast.Node) bool {
+			if se, ok := n.(*ast.SelectorExpr); ok && se.Sel.Name == "N" {
+				mentionsN = true
+			}
+			return true
+		})
+		if mentionsN {
+			out = append(out, strings.ReplaceAll(types.ExprString(g.Expr), " ", ""))
+		}
+	}
+	sort.Strings(out)
+	return strings.Join(out, " && ")
 }
 
 // headerBoundField returns the field name of the bound written in a loop header "v < x.F".
@@ -718,4 +746,61 @@ func sameShape(a, b Poly) bool {
 		return s
 	}
 	return erase(a) == erase(b)
+}
+
+// c15PTFArgs: the interval proof of R2b is about each function over its own
+// parameter domain; it only transfers to the simulation if each call hands the
+// texture fractions to the parameters of the same meaning.
+var textureRole = map[string]string{
+	"CGEHALT": "organic carbon", "CORG": "organic carbon", "OC": "organic carbon", "C": "organic carbon",
+	"TON": "clay", "CLAY": "clay", "SLUF": "silt", "SILT": "silt", "SCHLUFF": "silt", "SSAND": "sand", "SAND": "sand",
+}
+
+func c15PTFArgs(p *Prog, r *Report) {
+	r.Rule("C15.R2c", "pedotransfer call sites: each call passes organic carbon, clay and silt/sand of the same horizon to the parameter of the same meaning (roles read from the parameter and field names through a synonym table; an unknown name is reported, not guessed)", 4)
+	x := walked(p, "hermes.Input")
+	if x == nil {
+		return
+	}
+	n := 0
+	for _, e := range x.Events {
+		if e.Kind != "call" || e.Callee == nil || !strings.HasPrefix(e.Name, "hermes.PTF") || e.Call == nil {
+			continue
+		}
+		fi := p.ByObj[e.Callee]
+		if fi == nil {
+			continue
+		}
+		n++
+		names := paramNames(fi.Decl)
+		ok := len(names) == len(e.Call.Args)
+		det := ""
+		var idx0 string
+		for i, a := range e.Call.Args {
+			if i >= len(names) {
+				break
+			}
+			pr, okP := textureRole[strings.ToUpper(names[i])]
+			af := fieldOf(x.Info, a)
+			ar, okA := textureRole[strings.ToUpper(af)]
+			det += fmt.Sprintf("%s(%s) ← %s(%s); ", names[i], pr, af, ar)
+			if !okP || !okA || pr != ar {
+				ok = false
+			}
+			// same horizon index on all arguments
+			if ie, isIdx := a.(*ast.IndexExpr); isIdx {
+				ix := types.ExprString(ie.Index)
+				if idx0 == "" {
+					idx0 = ix
+				} else if ix != idx0 {
+					ok = false
+					det += "(different horizon index) "
+				}
+			}
+		}
+		r.Ob("args:"+strings.TrimPrefix(e.Name, "hermes."), p.Pos(e.Pos), ok, det)
+	}
+	if n == 0 {
+		r.Ob("args", "-", false, "no pedotransfer call found in the input routine")
+	}
 }
